@@ -106,7 +106,8 @@ def source_facts():
         # not an error: that expression is tied to the model by the correspondence check only in this run (DESIGN.md section 13)
         facts["fragments_not_found"] = tr["fragments_not_found"]
     if tr["failed"]:
-        facts["translator_failed"] = tr["failed"]
+        # functions rewritten into syntax outside the translated subset: tied by the correspondence check only in this run
+        facts["translator_fallbacks"] = tr["failed"]
     return facts
 
 
